@@ -74,8 +74,8 @@ def _adapt_job(case):
     try:
         return adapt_runs.run(case)
     except Exception as e:  # noqa
-        import traceback
-        return dict(error=f'{type(e).__name__}: {e} {traceback.format_exc()[-300:]}')
+        from lib.errors import describe
+        return dict(error=describe(e, 300))
 
 
 def run(tier, seed):
@@ -113,7 +113,7 @@ def run(tier, seed):
         runs = []
         for k, (c, o) in enumerate(zip(cases, outs)):
             if 'error' in o:
-                rep.machinery.append('adaptive run failed: ' + o['error'])
+                rep.problem('adaptive run failed: ' + o['error'], dict(kind='adaptive-run', case=c), clause='adapt.unexpected_library_error')
             else:
                 runs.append(dict(tid=k + 1, case=c, exc=o['exc'], att=o['att'], max_restarts=o['max_restarts']))
         tf = os.path.join(scratch, 'runs.json')
